@@ -26,7 +26,7 @@ ASSUMPTIONS = [
     "the crash is simulated by a BaseException raised from the user's objective (no handler in the package may catch it)",
     "continuation tolerance 1e-9 relative (C06); everything else bit-exact",
 ]
-FAMS = ("qp", "qp_quartic", "rosenbrock", "beale", "rastrigin", "styblinski_tang")
+FAMS = ("qp", "qp_quartic", "rosenbrock", "beale", "rastrigin", "styblinski_tang", "qp_subnormal")
 XT = 1e-9
 CMP = ("x", "fun", "jac", "nfev", "njev", "nit", "sk", "yk")
 
@@ -549,8 +549,8 @@ def run(spec):
                 continue
             # the user's recovery: restart from what they kept
             try:
-                x0 = np.array(st.x, dtype=float, copy=True)
-                rbase = dict(base)
+                x0 = np.array(st.x, dtype=float, copy=True) if c % 2 else st.x  # a copy, or (the idiom `x0=state.x`) the kept state's own array
+                rbase = dict(base, x0_same_object=True)
                 if rbase.pop("scaler", None) is not None:
                     rbase["explicit_scale"] = spec["scaler"]
                 rs = probes.run_min(P, dict(rbase, maxiter=int(st.nit) + 1), checkpoint=st, x0=x0)
